@@ -147,39 +147,37 @@ impl<T: Read + Seek, S: ReadableShape> Iterator for ShapeIterator<'_, T, S> {
     type Item = Result<S, crate::Error>;
 
     fn next(&mut self) -> Option<Self::Item> {
-        if self.current_pos >= self.file_length {
-            None
-        } else {
-            if let Some(ref mut shapes_indices) = self.shapes_indices {
-                // Its 'safer' to seek to the shape offset when we have the `shx` file
-                // as some shapes may not be stored sequentially and may contain 'garbage'
-                // bytes between them
-                let start_pos = match shapes_indices.next()?.offset_in_bytes() {
-                    Ok(pos) => pos,
-                    Err(err) => return Some(Err(err)),
-                };
-                if start_pos != self.current_pos as u64 {
-                    if let Err(err) = self.source.seek(SeekFrom::Start(start_pos)) {
-                        return Some(Err(err.into()));
-                    }
-                    self.current_pos = start_pos as usize;
-                }
-            }
-            let (hdr, shape) = match read_one_shape_as::<T, S>(self.source) {
-                Err(e) => {
-                    if self.shapes_indices.is_none() {
-                        // Where the next record starts is not known: stop here,
-                        // instead of returning the same error forever
-                        self.current_pos = self.file_length;
-                    }
-                    return Some(Err(e));
-                }
-                Ok(hdr_and_shape) => hdr_and_shape,
+        if let Some(ref mut shapes_indices) = self.shapes_indices {
+            // When we have the `shx` file, it alone tells which shapes there are
+            // and where: some shapes may not be stored sequentially and may
+            // contain 'garbage' bytes between them
+            let start_pos = match shapes_indices.next()?.offset_in_bytes() {
+                Ok(pos) => pos,
+                Err(err) => return Some(Err(err)),
             };
-            self.current_pos += record::RecordHeader::SIZE;
-            self.current_pos += hdr.record_size as usize * 2;
-            Some(Ok(shape))
+            if start_pos != self.current_pos as u64 {
+                if let Err(err) = self.source.seek(SeekFrom::Start(start_pos)) {
+                    return Some(Err(err.into()));
+                }
+                self.current_pos = start_pos as usize;
+            }
+        } else if self.current_pos >= self.file_length {
+            return None;
         }
+        let (hdr, shape) = match read_one_shape_as::<T, S>(self.source) {
+            Err(e) => {
+                if self.shapes_indices.is_none() {
+                    // Where the next record starts is not known: stop here,
+                    // instead of returning the same error forever
+                    self.current_pos = self.file_length;
+                }
+                return Some(Err(e));
+            }
+            Ok(hdr_and_shape) => hdr_and_shape,
+        };
+        self.current_pos += record::RecordHeader::SIZE;
+        self.current_pos += hdr.record_size as usize * 2;
+        Some(Ok(shape))
     }
 
     fn size_hint(&self) -> (usize, Option<usize>) {
